@@ -50,9 +50,32 @@ func checkWorkerWidth(c *core.Ctx, tabs *Tables) {
 			ev.Domain = func(s eval.AbsSeq) []eval.Value { return codeValues(dom) }
 			args := bindWorker(c, fn, eval.Sym("L").Add(eval.K(delta)), func(i int, p *types.Var) eval.Value {
 				// offset tables of getVariants: their length is the alignment width
-				if sl, ok := p.Type().Underlying().(*types.Slice); ok {
-					if b, ok := sl.Elem().Underlying().(*types.Basic); ok && b.Kind() == types.Int {
-						return eval.AbsSeq{Name: p.Name(), Len: eval.Sym("L")}
+				isIntSlice := func(t types.Type) bool {
+					sl, ok := t.Underlying().(*types.Slice)
+					if !ok {
+						return false
+					}
+					b, ok := sl.Elem().Underlying().(*types.Basic)
+					return ok && b.Kind() == types.Int
+				}
+				if isIntSlice(p.Type()) {
+					return eval.AbsSeq{Name: p.Name(), Len: eval.Sym("L")}
+				}
+				// ... also when they travel inside a struct of shared inputs
+				if st, ok := p.Type().Underlying().(*types.Struct); ok {
+					sv, ok := absValue(p.Type(), p.Name(), eval.Sym("L")).(*eval.StructVal)
+					if !ok {
+						return nil
+					}
+					found := false
+					for k := 0; k < st.NumFields(); k++ {
+						if isIntSlice(st.Field(k).Type()) {
+							sv.F[st.Field(k).Name()] = eval.AbsSeq{Name: p.Name() + "." + st.Field(k).Name(), Len: eval.Sym("L")}
+							found = true
+						}
+					}
+					if found {
+						return sv
 					}
 				}
 				return nil
@@ -61,7 +84,7 @@ func checkWorkerWidth(c *core.Ctx, tabs *Tables) {
 				c.Und(key, fn.Pos(), "worker has no error channel")
 				continue
 			}
-			_, err := ev.CallFunc(fn, args.args...)
+			_, err := ev.CallFuncBound(fn, args.args...)
 			if err != nil && len(args.errs.Sent) == 0 {
 				c.Und(key, fn.Pos(), "cannot evaluate: %v", err)
 				continue
